@@ -70,7 +70,7 @@ def serialize(o):
     """(qf_smt2 | None, full_smt2, trivially_true); full_smt2 may be a tuple (uf_abstraction, exact)"""
     g = z3.simplify(o.goal)
     if z3.is_true(g):
-        return (None, None, True)
+        return (None, None, True, None)
     ng = z3.Not(o.goal)
     sv = z3.Solver()
     qfh = []
@@ -92,13 +92,17 @@ def serialize(o):
         sa = z3.Solver()
         sa.add(*abst)
         full = (sa.to_smt2(), full)
+    sr = z3.Solver()
+    sr.add(*o.hyps)
+    sr.add(o.goal)
+    refute = sr.to_smt2()
     qf = None
     if anyq:
         sq = z3.Solver()
         sq.add(*qfh)
         sq.add(ng)
         qf = sq.to_smt2()
-    return (qf, full, False)
+    return (qf, full, False, refute)
 
 
 def _z3_check(smt, timeout_ms, opts):
@@ -150,7 +154,11 @@ def _cvc5_check(smt, timeout_ms):
 
 def solve_one(job):
     """job = (idx, qf_smt2, full_smt2, trivial, timeout_ms, use_cvc5, both)"""
-    idx, qf, full, trivial, timeout_ms, use_cvc5, both = job
+    idx, qf, full, trivial, timeout_ms, use_cvc5, both = job[:7]
+    expect = job[7] if len(job) > 7 else "unsat"
+    refute = job[8] if len(job) > 8 else None
+    if expect == "sat":
+        timeout_ms = min(timeout_ms, 2000)      # vacuity canaries: a model or "unknown" is fine, only "unsat" is an error
     t = time.time()
     if trivial:
         return dict(idx=idx, verdict="unsat", backend="simplifier", stage="syntactic", time_s=0.0, model=None, reason="")
@@ -179,6 +187,16 @@ def solve_one(job):
         if verdict == "sat" and stage in ("ematch", "uf-abstraction"):
             verdict = "unknown"
     backend = "z3"
+    if verdict == "unknown" and refute is not None and expect == "unsat":
+        # is the goal *contradicted* by the path condition?  (hyps and goal) unsat  ==>  the obligation fails on every state of this path
+        try:
+            v2, _, _ = _z3_check(refute, min(timeout_ms, 5000), {"smt.mbqi": False, "smt.auto_config": False})
+            if v2 != "unsat":
+                v2, _, _ = _z3_check(refute, min(timeout_ms, 5000), {})
+        except z3.Z3Exception:
+            v2 = "unknown"
+        if v2 == "unsat":
+            verdict, reason, stage = "sat", "the goal contradicts the path condition (hypotheses and goal are jointly unsatisfiable)", "refuted"
     out = dict(idx=idx, verdict=verdict, backend=backend, stage=stage, time_s=round(time.time() - t, 3), model=model, reason=reason)
     if (verdict == "unknown" and use_cvc5) or both:
         r, why = _cvc5_check(full, timeout_ms)
